@@ -386,6 +386,8 @@ func propC06(p *Prog, r *Report) {
 	c06ClassGraph(p, r)
 	r.Rule("C06.e", "commit is atomic for readers of the all-store: in UpdateTx the committing transaction's versions are never unlinked from the all-store before the re-stamped versions are published, unless both happen inside one uninterrupted all-store write region (otherwise a ReadUncommitted reader finds the key in neither place)")
 	c06CommitMoveAtomic(p, r)
+	r.Rule("C06.g", "the read / write classification of the store operations (table of C06.c) agrees with the code: an operation classified as a read writes no field of the stores")
+	c06ReadersDoNotWrite(p, r, "C06.g")
 	r.Rule("C06.f", "ownership hand-off of pooled objects: Pool.Release clears the elements before it publishes them on the free list and does not touch them afterwards")
 	c06ReleaseThenHandsOff(p, r, "C06.f")
 }
